@@ -6,12 +6,20 @@ import Driver.Util
     mod <preserve> <enabled> <disables> <overrides> <files>  ->  ok|err <file>|<file>|...
         disables  : `-` or `;`-joined  path,module,field,fileOption,js
         overrides : `-` or `;`-joined  path,module,field,fileOption,js,sval,bval,nval
-        files     : `|`-joined  path,pkg,module,strs,bools,opt,fields,locs
-            module : `~` (nil) or hex;  strs : 8 `:`-joined `~`|hex;  bools : 3 `:`-joined `~`|0|1
-            opt : `~`|n;  fields : `-` or `;`-joined  name:path:typ:js  (path dotted, `~` = unset)
-            locs : `-` or `;`-joined dotted paths (`e` = empty path)
-        answer per file:  <changes>;<removed>   changes = `,`-joined s<tag>=<hex> b<tag>=<0|1>
-            o9=<n> j<fieldIndex>=<n> (`-` none);  removed = `.`-joined location indices (`-` none)
+        files     : `|`-joined  path,pkg,module,opts,fields,locs,payload
+            module : `~` (nil) or hex
+            opts   : `-` or `;`-joined  <fieldNumber>=<val>   — EVERY option present in FileOptions
+                     val : s<hex> (string) | b0 | b1 | n<enum number> | r<hash> (any other option:
+                     hash of its wire bytes; custom / unknown options included)
+            fields : `-` or `;`-joined  name:path:typ:fopts:rest   (path dotted, `e` = empty;
+                     typ `~` = unset; fopts `-` or `+`-joined <fieldNumber>=<val> of FieldOptions;
+                     rest = hash of the FieldDescriptorProto without its options)
+            locs   : `-` or `;`-joined dotted paths (`e` = empty path)
+            payload: hash of the FileDescriptorProto without file options, field options and
+                     source code info
+        answer per file — the COMPLETE state after Modify:  <opts>,<fields>,<payload>,<removed>
+            opts   : as above, sorted by field number;  fields : `-` or `;`-joined  fopts:rest
+            removed: `.`-joined indices of the source-info locations that are gone (`-` none)
     modold ...       same, with the sweeper as it was before the fix (documentation / replay)
     wkt <hex>        -> true|false        (datawkt.Exists)
     pascal <hex>     -> <hex>             (stringutil.ToPascalCase)
@@ -61,50 +69,65 @@ def decOverride (s : String) : Option Override :=
     pure ⟨p, m, fl, FileOption.fromNat fo, js, sv, bv, nv⟩
   | _ => none
 
-def decField (s : String) : Option Field :=
-  match s.splitOn ":" with
-  | [n, p, t, js] => do
-    let n ← decStr n; let p ← decPath p; let t ← decOptNat t; let js ← decOptNat js
-    pure ⟨n, p, t, js, 0⟩
+def decVal (s : String) : Option OVal :=
+  match s.toList with
+  | 's' :: rest => (decStr (String.ofList rest)).map .str
+  | ['b', '0'] => some (.bool false)
+  | ['b', '1'] => some (.bool true)
+  | 'n' :: rest => (String.ofList rest).toNat?.map .num
+  | 'r' :: rest => (String.ofList rest).toNat?.map .raw
   | _ => none
 
-def nth {α} (l : List α) (i : Nat) : Option α := l[i]?
+def decOpt (s : String) : Option (Nat × OVal) :=
+  match s.splitOn "=" with
+  | [n, v] => do let n ← n.toNat?; let v ← decVal v; pure (n, v)
+  | _ => none
+
+def decField (s : String) : Option Field :=
+  match s.splitOn ":" with
+  | [n, p, t, os, rest] => do
+    let n ← decStr n; let p ← decPath p; let t ← decOptNat t
+    let os ← decList "+" decOpt os; let rest ← rest.toNat?
+    pure ⟨n, p, t, os, rest⟩
+  | _ => none
 
 def decFile (s : String) : Option File :=
   match s.splitOn "," with
-  | [p, pk, m, strs, bools, opt, fields, locs] => do
+  | [p, pk, m, opts, fields, locs, payload] => do
     let p ← decStr p; let pk ← decStr pk; let m ← decOptStr m
-    let strs ← (strs.splitOn ":").mapM decOptStr
-    let bools ← (bools.splitOn ":").mapM decOptBool
-    let opt ← decOptNat opt
+    let opts ← decList ";" decOpt opts
     let fields ← decList ";" decField fields
     let locs ← decList ";" decPath locs
-    if strs.length ≠ 8 ∨ bools.length ≠ 3 then none else
-    let strOpts : StrOpt → Option (List Char) := fun o =>
-      ((StrOpt.all.zip strs).find? (fun q => q.1 = o)).bind (·.2)
-    let boolOpts : BoolOpt → Option Bool := fun o =>
-      ((BoolOpt.all.zip bools).find? (fun q => q.1 = o)).bind (·.2)
-    pure { path := p, pkg := pk, module := m, strOpts := strOpts, boolOpts := boolOpts,
-           optimizeFor := opt, fields := fields,
-           locs := locs.zipIdx.map (fun q => ⟨q.1, q.2⟩), rest := 0 }
+    let payload ← payload.toNat?
+    pure { path := p, pkg := pk, module := m, opts := opts, fields := fields,
+           locs := locs.zipIdx.map (fun q => ⟨q.1, q.2⟩), payload := payload }
   | _ => none
 
+def encVal : OVal → String
+  | .str s => "s" ++ enc (l2s s)
+  | .bool b => if b then "b1" else "b0"
+  | .num n => "n" ++ toString n
+  | .raw h => "r" ++ toString h
+
+/-- stable insertion by field number (an option set for the first time is appended by the
+    model; the wire order is by field number). -/
+def insertOpt (x : Nat × OVal) : List (Nat × OVal) → List (Nat × OVal)
+  | [] => [x]
+  | y :: ys => if x.1 < y.1 then x :: y :: ys else y :: insertOpt x ys
+
+def sortOpts (os : Opts) : Opts := os.foldl (fun acc x => insertOpt x acc) []
+
+def encOpts (sep : String) (os : Opts) : String :=
+  if os.isEmpty then "-"
+  else sep.intercalate ((sortOpts os).map fun q => toString q.1 ++ "=" ++ encVal q.2)
+
 def fileAnswer (before after : File) : String :=
-  let strs := StrOpt.all.filterMap fun o =>
-    if before.strOpts o = after.strOpts o then none
-    else some ("s" ++ toString o.tag ++ "=" ++ enc (l2s ((after.strOpts o).getD [])))
-  let bools := BoolOpt.all.filterMap fun o =>
-    if before.boolOpts o = after.boolOpts o then none
-    else some ("b" ++ toString o.tag ++ "=" ++ (if (after.boolOpts o).getD false then "1" else "0"))
-  let opt := if before.optimizeFor = after.optimizeFor then []
-    else ["o9=" ++ toString (after.optimizeFor.getD 0)]
-  let js := ((before.fields.zip after.fields).zipIdx.filterMap fun q =>
-    if q.1.1.jstype = q.1.2.jstype then none
-    else some ("j" ++ toString q.2 ++ "=" ++ toString (q.1.2.jstype.getD 0)))
-  let changes := strs ++ bools ++ opt ++ js
+  let fields := after.fields.map fun fd => encOpts "+" fd.opts ++ ":" ++ toString fd.rest
   let kept := after.locs.map (·.payload)
   let removed := (List.range before.locs.length).filter fun i => !kept.contains i
-  (if changes.isEmpty then "-" else ",".intercalate changes) ++ ";" ++
+  encOpts ";" after.opts ++ "," ++
+  (if fields.isEmpty then "-" else ";".intercalate fields) ++ "," ++
+  toString after.payload ++ "," ++
   (if removed.isEmpty then "-" else ".".intercalate (removed.map toString))
 
 def handleMod (fixed : Bool) (pres en dis ovr files : String) : String :=
